@@ -36,9 +36,9 @@ func Mux() (*nl.Mux, error) {
 
 // Driver is a real Gtp5g driver on a simulated kernel.
 type Driver struct {
-	K    *simkernel.Kernel
-	G    *forwarder.Gtp5g
-	Gtpu *net.UDPConn
+	K      *simkernel.Kernel
+	G      *forwarder.Gtp5g
+	Gtpu   *net.UDPConn
 	wg     *sync.WaitGroup
 	own    sync.WaitGroup
 	detach sync.Once
